@@ -23,7 +23,13 @@ type rConn struct {
 	holders atomic.Int32
 }
 
-func (c *rConn) Close() error { c.closed.Store(true); return nil }
+// Close takes a little while, as closing a socket does: whatever the pool does around a Close
+// (a lock released, a list written back) gets a window in which the other callers run
+func (c *rConn) Close() error {
+	c.closed.Store(true)
+	time.Sleep(20 * time.Microsecond)
+	return nil
+}
 
 // TestVerifPoolRace: the WebSocket pool under concurrent Get / Put / Close / Stats / cleanup
 // and a Shutdown that arrives while the others still run (binary built with -race). Besides
@@ -71,7 +77,7 @@ func TestVerifPoolRace(t *testing.T) {
 					}
 				}
 				_, _ = p.Stats(b)
-				if rng.Intn(20) == 0 {
+				if rng.Intn(6) == 0 {
 					p.cleanup()
 				}
 				ops.Add(1)
